@@ -171,7 +171,7 @@ pub fn run_c06(tier: Tier) -> i32 {
     }
     // packet id wrap-around (one long deterministic history per role)
     crate::c06wrap::wraparound(&mut ck, tier);
-    ck.rule = "per role: 1-3 application sends over {QoS 1 auto id, QoS 1 caller-chosen id, QoS 1 through the non-blocking API (completion = the publish_ack_cb callback), QoS 2 with held receipt, (client) subscribe, unsubscribe} started in every order, interleaved with every peer sequence of up to 2 (quick) / 3 (thorough) acknowledgements over {PUBACK, PUBREC, PUBCOMP, (client) SUBACK, UNSUBACK} x id in {1, 2, 5, 9}; reference = two FIFO queues (sends awaiting their first ack in wire order; released QoS 2 awaiting PUBCOMP): an ack equal to the head completes exactly that send, anything else ends the connection with one protocol-error Stop and completes nothing; converse family with a correct in-order peer and sends that fail locally (id in use - also across publish / subscribe / unsubscribe with caller-chosen ids, and against a QoS 2 send whose receipt is held: its id stays in use until PUBCOMP -, over maximum packet size, over-long filter); id wrap-around history".into();
+    ck.rule = "per role: 1-3 application sends over {QoS 1 auto id, QoS 1 caller-chosen id, QoS 1 through the non-blocking API (completion = the publish_ack_cb callback), QoS 2 with held receipt, (client) subscribe, unsubscribe} started in every order, interleaved with every peer sequence of up to 2 (quick) / 3 (thorough) acknowledgements over {PUBACK, PUBREC, PUBCOMP, (client) SUBACK, UNSUBACK} x id in {1, 2, 5, 9}; reference = two FIFO queues (sends awaiting their first ack in wire order; released QoS 2 awaiting PUBCOMP): an ack equal to the head completes exactly that send, anything else ends the connection with one protocol-error Stop and completes nothing; converse family with a correct in-order peer and sends that fail locally (id in use - also across publish / subscribe / unsubscribe with caller-chosen ids, against a QoS 2 send whose receipt is held: its id stays in use until PUBCOMP, and against a publish sent through the non-blocking API or streamed with that id -, over maximum packet size, over-long filter); id wrap-around history".into();
     ck.assumptions = vec![
         "FIFO task order of ntex-rt; nondeterminism = timing of environment events (DESIGN 2.4)".into(),
         "hostile acknowledgements are written at quiescent points (the endpoint's queue then equals what is on the wire)".into(),
